@@ -122,8 +122,13 @@ def step_object(el, op, a):
     """works for untyped elements and model classes alike (attribute assignment / properties item ops)"""
     from vf.common import NotPassed, Integer, Property, Element
 
-    op = op % 9
-    if op == 0:
+    op = op % 10
+    if op == 9:
+        # a declared property whose element is a composition and whose name matches the "^c" pattern of op 8
+        from vf.common import AllOf
+
+        el.properties = {"c": Property(AllOf(Integer(minimum=a), Element(multipleOf=1 + a % 3)), required=bool(a % 2)), "a": Property(Integer())}
+    elif op == 0:
         el.required = ["a"] if a % 2 else ["b", "c"]
     elif op == 1:
         el.required = NotPassed()
@@ -185,7 +190,7 @@ def history_effect(kind, ops, args, xs):
     return before != accepts(el, v)
 
 
-NOPS = {"scalar": 6, "list": 7, "dict": 9, "class": 9}
+NOPS = {"scalar": 6, "list": 7, "dict": 10, "class": 10}
 
 
 def harnesses(ctx) -> List[H]:
@@ -194,10 +199,19 @@ def harnesses(ctx) -> List[H]:
     hs: List[H] = []
     for kind in ("scalar", "list", "dict", "class"):
         n = NOPS[kind]
-        for K, tier, to in ((2, "quick", 60), (3, "thorough", 120)):
+        for K, tier, to in ((2, "quick", 60), (3, "thorough", 240)):
             for seq in itertools.product(range(n), repeat=K):
                 if K == 3 and kind in ("scalar", "list") and seq[0] > seq[1]:
                     continue  # thin the cheaper families
+                if K == 3 and kind in ("dict", "class") and seq[0] == seq[1] == seq[2]:
+                    continue
+                # thinning of the K=3 object families (10^3 sequences each would take 90 min): dict keeps
+                # the sequences with an even position sum, class those with an odd one - together every
+                # ordered triple of opcodes is exercised on one of the two targets (they share step_object)
+                if K == 3 and kind == "dict" and (seq[0] + seq[1] + seq[2]) % 2:
+                    continue
+                if K == 3 and kind == "class" and (seq[0] + seq[1] + seq[2]) % 2 == 0:
+                    continue
                 pre = [f"len(args) == {K}", f"len(xs) == {K}", "all(0 <= a < 64 for a in args)"]
                 nm = "".join(str(o) for o in seq)
                 hs.append(mk(f"c13_{kind}_k{K}_{nm}", "args: List[int], xs: List[int]", pre,
